@@ -387,7 +387,7 @@ def wrun {σ : Type} (S : Source σ) (cfg : Cfg) : WState σ → List (WEvent σ
 def woutputs {σ : Type} (S : Source σ) (cfg : Cfg) : WState σ → List (WEvent σ) → List Out
   | _, [] => []
   | w, ev :: evs =>
-    (match (wstep S cfg w ev).2 with | some o => [o] | none => []) ++ woutputs S cfg (wstep S cfg w ev).1 evs
+    (wstep S cfg w ev).2.toList ++ woutputs S cfg (wstep S cfg w ev).1 evs
 
 /-- `HotReloader(guard, source, initial_load=…)` at clock `now0`: with `initial_load=False` and a
     sync `etag` the constructor calls `etag()` once -/
